@@ -5,8 +5,10 @@
 // revision-controller reconciles (every API call a fault / crash point),
 // owner reference stripping (backup/restore), user deletion of the oldest
 // revision and real XR reconciles under the Manual / Automatic (+ revision
-// selector) update policies, with state-hash pruning. The oracle (oracle_test.go)
-// is evaluated on every effective write and after every reconcile.
+// selector) update policies, with state-hash pruning. The oracle
+// (oracle_test.go) is evaluated on every effective write and after every
+// reconcile. Transitions are memoised per (state, event, fault decisions)
+// (memo_test.go): the real code computes each distinct transition once.
 package c12
 
 import (
@@ -55,6 +57,7 @@ const (
 var (
 	compKey = simkube.ObjKey{Group: "apiextensions.crossplane.io", Kind: "Composition", Name: compName}
 	revGK   = schema.GroupKind{Group: "apiextensions.crossplane.io", Kind: "CompositionRevision"}
+	nnComp  = types.NamespacedName{Name: compName}
 )
 
 // ---- contents ---------------------------------------------------------------
@@ -73,9 +76,9 @@ type content struct {
 var contents = []content{
 	{id: "A", steps: []string{"step1"}, marker: "A"},
 	{id: "B", steps: []string{"step1", "step2"}, marker: "B", labels: map[string]string{selLabel: selValue}},
-	{id: "C", steps: []string{"step1"}, marker: "A", labels: map[string]string{selLabel: selValue}}, // A + a label only
+	{id: "C", steps: []string{"step1"}, marker: "A", labels: map[string]string{selLabel: selValue}},           // A + a label only
 	{id: "D", steps: []string{"step1"}, marker: "A", annotations: map[string]string{"example.org/note": "d"}}, // A + an annotation only
-	{id: "E", steps: []string{"step1"}, marker: "E"}, // A with a different step input
+	{id: "E", steps: []string{"step1"}, marker: "E"},                                                          // A with a different step input
 }
 
 func contentByID(id string) content {
@@ -97,16 +100,28 @@ func (c content) composition() *v1.Composition {
 
 // ---- world ------------------------------------------------------------------
 
+// world is one execution. Between steps it stands on a memoised state
+// (cur); the store is materialised (s != nil) only while transitions are
+// computed by the real code.
 type world struct {
-	s       *simkube.Store
-	r       *explore.Run
-	xrd     *v1.CompositeResourceDefinition
-	inj     *xrh.FaultInjector
-	current string // content id the Composition has now
-	o       *oracle
-	// what the scripted function saw in the XR reconcile in progress
-	fnMarkers []string
-	skip      map[string]bool
+	r   *explore.Run
+	cur *state
+	s   *simkube.Store
+	o   *oracle
+	xrd *v1.CompositeResourceDefinition
+
+	revC, xrC *simkube.Client
+	rec, xrec reconcile.Reconciler
+	inj       *prefixInjector
+
+	current  string // content id the Composition has now
+	stripped bool   // owner references were stripped at some point of this history
+	skip     map[string]bool
+
+	fnMarkers []string // what the scripted function saw in the XR reconcile in progress
+
+	step    int      // step in progress (for log lines)
+	steplog []string // log lines of the transition being computed
 }
 
 func (w *world) fn(_ context.Context, _ string, req *fnv1.RunFunctionRequest) (*fnv1.RunFunctionResponse, error) {
@@ -122,17 +137,23 @@ func (w *world) fn(_ context.Context, _ string, req *fnv1.RunFunctionRequest) (*
 	}, nil
 }
 
+func (w *world) ctx() string {
+	if w.stripped {
+		return ctxStripped
+	}
+	return ctxPlain
+}
+
 // setContent is the user editing the Composition: labels, annotations and
 // spec are replaced, identity (name, uid) stays.
-func (w *world) setContent(id string) bool {
+func (w *world) setContent(id string) {
 	u := w.s.MustU(contentByID(id).composition())
-	changed := w.s.Mutate(compKey, func(o *unstructured.Unstructured) {
+	w.s.Mutate(compKey, func(o *unstructured.Unstructured) {
 		o.Object["spec"] = runtime.DeepCopyJSONValue(u.Object["spec"])
 		o.SetLabels(u.GetLabels())
 		o.SetAnnotations(u.GetAnnotations())
 	})
 	w.current = id
-	return changed
 }
 
 func (w *world) stripOwners() int {
@@ -142,9 +163,14 @@ func (w *world) stripOwners() int {
 			n++
 		}
 	}
+	if n > 0 {
+		w.stripped = true
+	}
 	return n
 }
 
+// deleteOldest is a user cleaning up: the lowest-numbered revision goes,
+// provided another one remains.
 func (w *world) deleteOldest() string {
 	rs := w.revisions()
 	if len(rs) < 2 {
@@ -162,8 +188,8 @@ type event struct {
 	arg  string
 }
 
-func menu(thorough bool) []event {
-	m := []event{
+func menu() []event {
+	return []event{
 		{"rev-reconcile", "reconcile", ""},
 		{"edit=B", "edit", "B"},
 		{"edit=A", "edit", "A"},
@@ -176,17 +202,6 @@ func menu(thorough bool) []event {
 		{"xr-reconcile/automatic+selector", "xr", xrAutoSel},
 		{"delete-oldest-revision", "delete", ""},
 	}
-	_ = thorough
-	return m
-}
-
-func newRevReconciler(w *world) reconcile.Reconciler {
-	return composition.NewReconciler(&pkgh.Mgr{C: w.s.Client(revClient)})
-}
-
-func newXRReconciler(w *world) reconcile.Reconciler {
-	c := w.s.Client(xrClient)
-	return xrh.NewXRReconciler(w.xrd, xrh.XROptions{Cached: c, Uncached: c, Runner: xrh.FunctionRunner(w.fn)})
 }
 
 func seedXR(s *simkube.Store, name string, pol xpv1.UpdatePolicy, selector bool) {
@@ -198,131 +213,154 @@ func seedXR(s *simkube.Store, name string, pol xpv1.UpdatePolicy, selector bool)
 	s.Seed(xr)
 }
 
-func setup(r *explore.Run, skip map[string]bool) *world {
-	xrh.BeginExecution(12)
-	s := xrh.NewStore()
-	w := &world{s: s, r: r, xrd: xrh.XRD(), skip: skip}
-	w.o = newOracle(w)
-	s.Seed(w.xrd)
-	s.Seed(contentByID("A").composition())
-	w.current = "A"
-	seedXR(s, xrManual, xpv1.UpdateManual, false)
-	seedXR(s, xrAuto, xpv1.UpdateAutomatic, false)
-	seedXR(s, xrAutoSel, xpv1.UpdateAutomatic, true)
-	w.inj = &xrh.FaultInjector{Run: r, Reads: true}
-	s.Inj = w.inj
-	s.OnWrite = append(s.OnWrite, w.o.onWrite)
+func newWorld(r *explore.Run, skip map[string]bool) *world {
+	w := &world{r: r, xrd: xrh.XRD(), skip: skip, current: "A"}
+	w.revC = &simkube.Client{Name: revClient}
+	w.xrC = &simkube.Client{Name: xrClient}
+	w.inj = &prefixInjector{fi: &xrh.FaultInjector{Run: r, Reads: true}}
 	return w
 }
 
-func body(r *explore.Run, rep *report.R, sc string, depth int, thorough bool, history bool, skip map[string]bool) {
-	w := setup(r, skip)
-	s := w.s
-	rec := newRevReconciler(w)
-	xrec := newXRReconciler(w)
-	evs := menu(thorough)
-	nnComp := types.NamespacedName{Name: compName}
+// initialState: XRD, Composition with content A, no revision, three XRs.
+func (w *world) initialState() *state {
+	if memo.initial == nil {
+		s := xrh.NewStore()
+		s.Seed(w.xrd)
+		s.Seed(contentByID("A").composition())
+		seedXR(s, xrManual, xpv1.UpdateManual, false)
+		seedXR(s, xrAuto, xpv1.UpdateAutomatic, false)
+		seedXR(s, xrAutoSel, xpv1.UpdateAutomatic, true)
+		w.attach(s, newOracle(w))
+		memo.initial = w.snapshot()
+	}
+	return memo.initial
+}
 
-	if history {
-		// Prepared (fault-free, not explored): contents A, B, C reconciled in
-		// turn and every XR reconciled after each; leaves A#1 B#2 C#3.
+// historyState: prepared (fault-free, not explored) contents A, B, C
+// reconciled in turn and every XR reconciled after each: A#1 B#2 C#3.
+func (w *world) historyState() *state {
+	if memo.history == nil {
+		w.adopt(w.initialState())
+		w.materialize()
 		for _, id := range []string{"A", "B", "C"} {
 			w.setContent(id)
-			w.revReconcile(rec, nnComp, -1)
+			w.realRevReconcile(false, nil)
 			for _, x := range []string{xrManual, xrAuto, xrAutoSel} {
-				w.xrReconcile(xrec, x, -1)
+				w.realXRReconcile(x)
 			}
 		}
 		if got := describe(w.revisions()); got != "A#1 B#2 C#3" {
 			panic(explore.HarnessError{Msg: "history preparation: " + got})
 		}
+		memo.history = w.snapshot()
 	}
+	return memo.history
+}
+
+func body(r *explore.Run, rep *report.R, sc string, depth int, history bool, skip map[string]bool) {
+	w := newWorld(r, skip)
+	if history {
+		w.adopt(w.historyState())
+	} else {
+		w.adopt(w.initialState())
+	}
+	evs := menu()
 
 	var trail []string
 	edits, reconciles, faulted := 0, 0, 0
 	for step := 0; step < depth; step++ {
-		r.SeenRank(report.Hash(s.Canonical(), w.current, w.o.key()), depth-step)
-		e := evs[r.Free(len(evs), fmt.Sprintf("ev%d", step))]
+		w.step = step
+		r.SeenRank(w.cur.key, depth-step)
+		ei := r.Free(len(evs), fmt.Sprintf("ev%d", step))
+		e := evs[ei]
 		trail = append(trail, e.name)
 		switch e.kind {
 		case "edit":
-			if w.setContent(e.arg) {
+			if e.arg != w.current {
 				edits++
 			}
-			r.Logf("step %d: %s", step, e.name)
-		case "strip":
-			n := w.stripOwners()
-			r.Logf("step %d: owner references stripped from %d revisions", step, n)
-		case "delete":
-			r.Logf("step %d: user deletes oldest revision %q", step, w.deleteOldest())
-		case "xr":
-			w.xrReconcile(xrec, e.arg, step)
 		case "reconcile":
 			reconciles++
-			out, wasFaulted := w.revReconcile(rec, nnComp, step)
-			if wasFaulted {
+			if w.revReconcileStep() {
 				faulted++
 			}
-			if out.Crashed != nil {
-				rec = newRevReconciler(w) // process restart
-				xrec = newXRReconciler(w)
-			}
+			continue
 		}
+		w.plainStep(e)
 	}
 	nt := ""
 	if edits >= 2 && reconciles >= 2 {
-		nt = report.Hash(sc, trail, w.inj.Taken)
+		nt = report.Hash(sc, trail, w.inj.fi.Taken)
 	}
-	rep.Eval(sc, report.Hash(describe(w.revisions())), nt)
-	if rep.WantSample() && nt != "" && faulted > 0 && len(w.revisions()) >= 2 {
-		rep.Sample(map[string]any{"scenario": sc, "events": trail, "faults": w.inj.Taken, "final_revisions": describe(w.revisions()), "composition_content": w.current})
+	rep.Eval(sc, report.Hash(w.cur.table), nt)
+	if rep.WantSample() && nt != "" && faulted > 0 && w.cur.nrevs >= 2 {
+		rep.Sample(map[string]any{"scenario": sc, "events": trail, "faults": w.inj.fi.Taken, "final_revisions": w.cur.table, "composition_content": w.current})
 	}
 }
 
-// revReconcile runs one real revision-controller reconcile; every API call is
-// a fault point (step < 0: preparation, fault free).
-func (w *world) revReconcile(rec reconcile.Reconciler, nn types.NamespacedName, step int) (xrh.Outcome, bool) {
-	r := w.r
-	pre := w.revisions()
-	w.o.ctx = ctxPlain
-	for _, x := range pre {
-		if !x.controlled {
-			w.o.ctx = ctxStripped
+// doEvent executes a non-reconcile event with the real code / on the real store.
+func (w *world) doEvent(e event) {
+	switch e.kind {
+	case "edit":
+		w.setContent(e.arg)
+		w.logf("%s", e.name)
+	case "strip":
+		n := w.stripOwners()
+		w.logf("owner references stripped from %d revisions", n)
+	case "delete":
+		w.logf("user deletes the oldest revision %q -> [%s]", w.deleteOldest(), describe(w.revisions()))
+	case "xr":
+		w.realXRReconcile(e.arg)
+	}
+}
+
+// realRevReconcile runs one real revision-controller reconcile; every API
+// call is a fault point (armed == false: preparation, fault free). pre holds fault
+// decisions already taken for this reconcile (see memo_test.go).
+func (w *world) realRevReconcile(armed bool, pre []int) (xrh.Outcome, []decision) {
+	if w.rec == nil {
+		w.rec = composition.NewReconciler(&pkgh.Mgr{C: w.revC})
+	}
+	before := w.revisions()
+	w.o.ctx = w.ctx()
+	w.inj.begin(pre, armed)
+	out := xrh.Reconcile(w.rec, nnComp)
+	ds := w.inj.end()
+	var faults []string
+	for _, d := range ds {
+		if d.choice != 0 {
+			faults = append(faults, d.call+" -> "+d.outcome)
 		}
 	}
-	taken := len(w.inj.Taken)
-	w.inj.Armed = step >= 0
-	out := xrh.Reconcile(rec, nn)
-	w.inj.Armed = false
-	wasFaulted := len(w.inj.Taken) > taken
-	post := w.revisions()
-	r.Logf("step %d: rev-reconcile content=%s [%s] err=%v requeue=%v crashed=%v faults=%v -> [%s]", step, w.current, describe(pre), out.Err, out.Result.Requeue, out.Crashed != nil, w.inj.Taken[taken:], describe(post))
-	w.o.afterRevReconcile(out, wasFaulted, pre, post)
-	w.o.ctx = ctxPlain
-	return out, wasFaulted
+	if out.Crashed != nil {
+		w.rec, w.xrec = nil, nil // process restart: fresh reconcilers
+	}
+	after := w.revisions()
+	w.logf("rev-reconcile content=%s [%s] err=%v requeue=%v crashed=%v faults=%v -> [%s]", w.current, describe(before), out.Err, out.Result.Requeue, out.Crashed != nil, faults, describe(after))
+	w.o.afterRevReconcile(out, len(faults) > 0, before, after)
+	return out, ds
 }
 
-// xrReconcile runs one real, fault-free XR reconcile.
-func (w *world) xrReconcile(rec reconcile.Reconciler, name string, step int) {
-	s, r := w.s, w.r
+// realXRReconcile runs one real, fault-free XR reconcile.
+func (w *world) realXRReconcile(name string) {
+	s := w.s
+	if w.xrec == nil {
+		w.xrec = xrh.NewXRReconciler(w.xrd, xrh.XROptions{Cached: w.xrC, Uncached: w.xrC, Runner: xrh.FunctionRunner(w.fn)})
+	}
 	before := xrRef(s, name)
 	w.fnMarkers = nil
-	out := xrh.Reconcile(rec, types.NamespacedName{Name: name})
+	w.o.ctx = w.ctx()
+	out := xrh.Reconcile(w.xrec, types.NamespacedName{Name: name})
 	if out.Crashed != nil {
 		panic(explore.HarnessError{Msg: "crash in fault-free XR reconcile"})
 	}
 	after := xrRef(s, name)
-	r.Logf("step %d: xr-reconcile %s ref %q -> %q err=%v fn-saw=%v revisions=[%s]", step, name, before, after, out.Err, w.fnMarkers, describe(w.revisions()))
+	w.logf("xr-reconcile %s ref %q -> %q err=%v fn-saw=%v revisions=[%s]", name, before, after, out.Err, w.fnMarkers, describe(w.revisions()))
 	w.o.afterXRReconcile(name, before, after, out)
 }
 
 func xrRef(s *simkube.Store, name string) string {
-	u := s.Peek(xrh.XRKey(name))
-	if u == nil {
-		return ""
-	}
-	ref, _, _ := unstructured.NestedString(u.Object, "spec", "compositionRevisionRef", "name")
-	return ref
+	return refOf(s.Peek(xrh.XRKey(name)))
 }
 
 func parseSkip() map[string]bool {
@@ -338,35 +376,37 @@ func parseSkip() map[string]bool {
 func TestCheck(t *testing.T) {
 	rep := report.New("C12", "fault_enumeration")
 	rep.Meta(
-		"Executions are event sequences of bounded depth over the menu {revision-controller reconcile (real composition.Reconciler; every API call, reads included, is a fault point with outcomes error-before / conflict / error-after / crash-before / crash-after, <= F deviations per sequence, fresh reconciler after a crash), edit the Composition 'comp' to content A / B (other spec + label) / C (A + a label only) / D (A + an annotation only) / E (A with another pipeline step input), strip the owner references of all revisions (backup/restore), real fault-free XR reconcile (production option list, scripted function) of an XR with policy Manual / Automatic / Automatic + compositionRevisionSelector on a label only B and C carry, user deletes the lowest-numbered revision}. All sequences are enumerated by DFS; a state (store + oracle memory) reached again with no more steps and fault budget left is pruned. Scenario 'history' starts from prepared revisions A#1 B#2 C#3. Oracle R1-R5 on every effective write and after every reconcile. Non-trivial: >= 2 effective edits and >= 2 revision-controller reconciles (distinct by event trail + faults). Outcome = final revision table.",
+		"Executions are event sequences of bounded depth over the menu {revision-controller reconcile (real composition.Reconciler; every API call, reads included, is a fault point with outcomes error-before / conflict / error-after / crash-before / crash-after, <= F deviations per sequence, fresh reconciler after a crash), edit the Composition 'comp' to content A / B (other spec + label) / C (A + a label only) / D (A + an annotation only) / E (A with another pipeline step input), strip the owner references of all revisions (backup/restore), real fault-free XR reconcile (production option list, scripted function) of an XR with policy Manual / Automatic / Automatic + compositionRevisionSelector on a label only B and C carry, user deletes the lowest-numbered revision}. All sequences are enumerated by DFS; a state (store + oracle memory) reached again with no more steps and fault budget left is pruned; each distinct transition (state, event, fault decisions) is computed once by the real code and memoised. Scenario 'history' starts from prepared revisions A#1 B#2 C#3. Oracle R1-R5 on every effective write and after every reconcile. Non-trivial: >= 2 effective edits and >= 2 revision-controller reconciles (distinct by event trail + faults). Outcome = final revision table.",
 		[]string{
 			"simkube models the API server",
 			"one reconcile at a time (controller-runtime never runs two reconciles of one object concurrently); edits happen between reconciles",
 			"a 'content' is (labels, annotations, spec), as the doc of v1.LatestRevision says; label-only and annotation-only edits are distinct contents",
 			"UIDs are opaque: states that differ only in the API server's uid/resourceVersion counters are identified",
+			"the reconcilers are deterministic functions of the store and the fault decisions (transitions are memoised)",
 			"a fault-free reconcile of an existing Composition has to succeed (an error there counts against R4)",
 		},
-		[]string{"simkube", "pkgh.Mgr (manager that only hands out the client)", "xrh.NewXRReconciler wiring (same option list as the XRD controller)"},
+		[]string{"simkube", "pkgh.Mgr (manager that only hands out the client)", "xrh.NewXRReconciler wiring (same option list as the XRD controller)", "transition memoisation (memo_test.go)"},
 	)
 	depth, bound := 6, 1
 	if report.Thorough() {
 		depth, bound = 8, 2
 	}
-	th := report.Thorough()
 	skip := parseSkip()
 	if len(skip) > 0 {
-		rep.Note("TRIAGE RUN: oracles skipped via C12_SKIP: %v", os.Getenv("C12_SKIP"))
+		rep.Note("TRIAGE RUN: oracles skipped via C12_SKIP=%s", os.Getenv("C12_SKIP"))
 	}
 	rep.Bound("depth", depth)
 	rep.Bound("depth_history_scenario", depth-1)
 	rep.Bound("max_faults", bound)
-	rep.Bound("events_per_step", len(menu(th)))
+	rep.Bound("events_per_step", len(menu()))
 	rep.Bound("contents", len(contents))
 	scs := []report.Scenario{
-		{Name: "fresh", Bound: bound, Prune: true, Wrap: report.Bubble(t), Body: func(r *explore.Run) { body(r, rep, "fresh", depth, th, false, skip) }},
-		{Name: "history", Bound: bound, Prune: true, Wrap: report.Bubble(t), Body: func(r *explore.Run) { body(r, rep, "history", depth-1, th, true, skip) }},
+		{Name: "fresh", Bound: bound, Prune: true, Wrap: report.Bubble(t), Body: func(r *explore.Run) { body(r, rep, "fresh", depth, false, skip) }},
+		{Name: "history", Bound: bound, Prune: true, Wrap: report.Bubble(t), Body: func(r *explore.Run) { body(r, rep, "history", depth-1, true, skip) }},
 	}
-	rep.SelfCheck(t, scs[0], nil)
+	rep.SelfCheck(t, scs[0], func() { memo = newMemo() })
 	rep.RunScenarios(t, scs)
+	rep.Extra("real_transitions", memo.real)
+	rep.Extra("memoised_transitions_replayed", memo.hits)
 	rep.Write(t)
 }
